@@ -95,6 +95,7 @@ type event struct {
 }
 
 type stream struct {
+	paused int32 // the client does not read (a peer that has stalled)
 	mu    sync.Mutex
 	buf   []byte
 	ev    []event
@@ -106,6 +107,9 @@ type stream struct {
 func (s *stream) pump(c net.Conn) {
 	tmp := make([]byte, 64<<10)
 	for {
+		for atomic.LoadInt32(&s.paused) == 1 {
+			time.Sleep(2 * time.Millisecond)
+		}
 		c.SetReadDeadline(time.Now().Add(10 * time.Minute))
 		n, err := c.Read(tmp)
 		now := time.Now()
@@ -430,7 +434,17 @@ func (w *world) post(cfg Config, during []int) {
 	rw := httptest.NewRecorder()
 	if len(during) == 0 {
 		req, _ := http.NewRequest("POST", "http://martian.proxy/shape-traffic", bytes.NewReader(cfg.JSON()))
-		w.h.ServeHTTP(rw, req)
+		panicked := func() (p interface{}) {
+			defer func() { p = recover() }()
+			w.h.ServeHTTP(rw, req)
+			return nil
+		}()
+		if panicked != nil {
+			// behind net/http this kills the request's goroutine and the client gets no answer at all
+			w.failf("C18/config/invalid-"+cfg.Why()+"/handler-panic", "the handler panicked on the document %s: %v", trunc(cfg.JSON(), 200), panicked)
+			w.abort = true
+			return
+		}
 	} else {
 		// slow upload: the handler has the request and waits for the rest of its
 		// body while connections are accepted; they predate the configuration
@@ -1112,6 +1126,19 @@ func (w *world) evaluate(group []*obs) {
 				w.failf(w.sig(o, "throttle-at-range-start-wrong"), "response %s starts at offset %d; the shape's throttles %v put it in a throttle: %v (bandwidth %d), GetCurrentThrottle answered %+v", o.url, o.start, shape.thrs, in, bw, *o.thr)
 			}
 		}
+		if o.r.Chunked && !o.ambiguous && o.cut {
+			// the statement counts body bytes: a cut chunked response carries exactly the
+			// body bytes in front of a close action's offset (martian counts the chunk framing too)
+			at := false
+			for _, a := range shape.acts {
+				if a.kind == 'c' && a.at-o.start == int64(o.db) {
+					at = true
+				}
+			}
+			if !at {
+				w.failf("C18/"+w.level+"/chunked-matching/cut-short-of-action-offset", "chunked response %s (body %d, range start %d) was cut after %d body bytes = offset %d; the shape's actions: %v", o.url, o.L, o.start, o.db, o.start+int64(o.db), shape.acts)
+			}
+		}
 		if o.r.Chunked || o.ambiguous {
 			// offsets count wire bytes: only prefix integrity is decided, and
 			// the counts this response may have consumed are unknown
@@ -1749,6 +1776,10 @@ func runOnce(c Case, T time.Duration) kit.Verdict {
 			if st.R != nil && w.level == "e2e" {
 				w.tunnelE2E(st.Conn, *st.R)
 			}
+		case "stalled-peer":
+			if st.R != nil && w.level == "conn" {
+				w.stalledPeer(st)
+			}
 		case "during-halt":
 			if st.R != nil && w.level == "conn" {
 				w.duringHalt(st)
@@ -1877,6 +1908,68 @@ func (w *world) duringHalt(st Step) {
 			w.failf("C18/concurrent/"+shape+"/held-up-by-foreign-halt", "%s, started while connection %d slept in a %v halt that does not concern it, was through only %v before that response resumed (it needs about a millisecond; at least half the halt's duration is demanded)", m.what, wa.id, D, resume.Sub(m.at))
 		}
 	}
+}
+
+// stalledPeer: the client of st.Conn stops reading while a response too large for the
+// socket buffers is written to it; the responses of st.Par on other connections - also of
+// the same shape - must get through all the same.
+func (w *world) stalledPeer(st Step) {
+	wa := w.conns[st.Conn]
+	if wa == nil || wa.dead {
+		return
+	}
+	atomic.StoreInt32(&wa.st.paused, 1)
+	defer atomic.StoreInt32(&wa.st.paused, 0)
+	w.seq++
+	var resA []*obs
+	doneA := make(chan struct{})
+	go laneWorker(w, wa, []Resp{*st.R}, []int{w.seq}, &resA, new(int64), doneA)
+	time.Sleep(100 * time.Millisecond) // let the writer run into the full socket
+	select {
+	case <-doneA:
+		return // everything fitted into the buffers: nothing was exercised
+	default:
+	}
+	for _, ln := range st.Par {
+		wb := w.conns[ln.Conn]
+		if wb == nil || wb.dead || wb == wa {
+			continue
+		}
+		for _, r := range ln.Rs {
+			w.seq++
+			var res []*obs
+			done := make(chan struct{})
+			go laneWorker(w, wb, []Resp{r}, []int{w.seq}, &res, new(int64), done)
+			select {
+			case <-done:
+			case <-time.After(w.T):
+				shape := "stalled-peer-other-shape"
+				if r.Pat == st.R.Pat {
+					shape = "stalled-peer-same-shape"
+				}
+				w.failf("C18/concurrent/"+shape+"/stuck-timeout", "a response on connection %d did not get through within %v while the client of connection %d had stopped reading a %d byte response", wb.id, w.T, wa.id, st.R.Body)
+				w.abort = true
+				wa.dead, wb.dead = true, true
+				return
+			}
+			for _, o := range res {
+				w.settleConn(o)
+			}
+			w.evaluate(res)
+		}
+	}
+	atomic.StoreInt32(&wa.st.paused, 0)
+	select {
+	case <-doneA:
+	case <-time.After(4 * w.T):
+		w.failf("C18/concurrent/stalled-peer/writer-stuck-timeout", "the large response did not finish within %v after its client resumed reading", 4*w.T)
+		w.abort = true
+		return
+	}
+	for _, o := range resA {
+		w.settleConn(o)
+	}
+	w.evaluate(resA)
 }
 
 func needsRetry(v kit.Verdict) bool {
